@@ -89,13 +89,30 @@ def run_pairs(pairs):
         fsb = pr[3] if len(pr) > 3 else fsa
         jobs.append(((fa,), {"fs": fsa}))
         jobs.append(((fb,), {"fs": fsb}))
-    outs = impl.pmap("assemble", jobs)
-    return [(outs[2 * i], outs[2 * i + 1]) for i in range(len(pairs))]
+    outs = settle(jobs, impl.pmap("assemble", jobs))
+    res = []
+    for i in range(len(pairs)):
+        a, b = outs[2 * i], outs[2 * i + 1]
+        if view(a) != view(b):
+            # confirm serially, outside the loaded pool, before anything is reported
+            a = impl.assemble(*jobs[2 * i][0], **jobs[2 * i][1], watchdog=120)
+            b = impl.assemble(*jobs[2 * i + 1][0], **jobs[2 * i + 1][1], watchdog=120)
+        res.append((a, b))
+    return res
+
+
+def settle(jobs, outs):
+    """a watchdog expiry inside the (shared, loaded) pool is not an observation: run those again alone"""
+    outs = list(outs)
+    for i, o in enumerate(outs):
+        if o["outcome"] in ("hang", "harness-error"):
+            outs[i] = impl.assemble(*jobs[i][0], **jobs[i][1], watchdog=120)
+    return outs
 
 
 def differs(fa, fb, fs):
-    a = impl.assemble(fa, fs=fs)
-    b = impl.assemble(fb, fs=fs)
+    a = impl.assemble(fa, fs=fs, watchdog=120)
+    b = impl.assemble(fb, fs=fs, watchdog=120)
     return view(a) != view(b)
 
 
@@ -172,7 +189,7 @@ def repeat_family(rep, rng, n_cases, n_end, with_model=True, label="repeat"):
                             impl=brief(a), impl_transformed=brief(b))
             else:
                 m = shrink_repeat(c)
-                ra, rb = impl.assemble([("t.mac", m.repeat_text())]), impl.assemble([("t.mac", m.unrolled_text(True))])
+                ra, rb = impl.assemble([("t.mac", m.repeat_text())], watchdog=120), impl.assemble([("t.mac", m.unrolled_text(True))], watchdog=120)
                 rep.violate("repeat-unroll:" + digest(m.repeat_text()),
                             "'.repeat n { body }' does not assemble to what the body written out n times assembles to",
                             {"files": [["t.mac", m.repeat_text()]], "files_transformed": [["t.mac", m.unrolled_text(True)]], "transformation": "unroll",
@@ -517,9 +534,12 @@ def rich_family(rep, rng, n_progs):
         else:
             jobs.append(((fa,), {"fs": fs}))
             jobs.append(((fb,), {"fs": fs}))
-    outs = impl.pmap("assemble", jobs)
+    outs = settle(jobs, impl.pmap("assemble", jobs))
     for i, ((fa, fb, fs), m) in enumerate(zip(pairs, meta)):
         a, b = outs[2 * i], outs[2 * i + 1]
+        if view(a) != view(b):
+            a = impl.assemble(*jobs[2 * i][0], **jobs[2 * i][1], watchdog=120)
+            b = impl.assemble(*jobs[2 * i + 1][0], **jobs[2 * i + 1][1], watchdog=120)
         kind = m[0] if isinstance(m, tuple) else m
         rep.add_eval(2)
         rep.count(f"rich:{kind}:{a['outcome']}")
